@@ -52,7 +52,7 @@ def _tol(rng, pts):
     return F(1000)
 
 def generate(rng, tier):
-    n = 500 if tier == "quick" else 9000
+    n = 500 if tier == "quick" else 25000
     cases = []
     for _ in range(n):
         pts = _path(rng); tol = _tol(rng, pts)
@@ -60,6 +60,18 @@ def generate(rng, tier):
         if len(pts) >= 3:
             k = rng.randint(3, len(pts)); a = rng.randint(0, len(pts) - k)
             cases.append({"kind": "p", "pts": pts[a:a + k], "tol": tol if tol > 0 else F(1), "family": "predicate"})
+    # long removable runs (over-sampled strokes: 64..300 vertices within tolerance of one segment) ending in a corner, a zig-zag or a hook:
+    # whatever window-growing strategy the code uses, every deleted vertex must be within tolerance of the segment that survives
+    for _ in range(max(6, n // 40)):
+        m = rng.choice([64, 65, 67, 70, 100, 130, 200, 300]); tol = F(rng.choice([1, 2])) / rng.choice([1, 2])
+        pts = [(F(i), F(rng.choice([0, 0, 0, 1, -1]), 8) * tol) for i in range(m)]
+        x = F(m - 1)
+        tail = rng.choice(["corner", "zigzag", "hook", "spike"])
+        if tail == "corner": pts += [(x, F(j)) for j in range(1, 4)]
+        elif tail == "zigzag": pts += [(x + j, F(6 if j % 2 else -6)) for j in range(1, 6)]
+        elif tail == "hook": pts += [(x + 1, F(1, 2)), (x + 1, F(3)), (x - 2, F(3))]
+        else: pts += [(x + 1, tol * 3), (x + 2, F(0)), (x + 3, F(0))]
+        cases.append({"kind": "s", "pts": pts, "tol": tol, "family": "long-run/%d+%s" % (m, tail)})
     # float runs (the arithmetic of the code is the double-precision one): long, nearly straight runs with a tiny tolerance - the
     # offsets are a few tolerances, the chord 1e7..1e11 tolerances long - and ordinary drawing-sized float data; judged exactly
     import math
